@@ -78,6 +78,9 @@ add("negexp", F("-2.5e-07"), [one("-2.5e-07")], "full")
 add("posexp", F("2.5e-07"), [one("2.5e-07"), one("0.00000025")], "core")
 add("bigexp", F("1.5e+16"), [one("1.5e+16"), one("15000000000000000.0")], "full")
 add("intexp", F("1e+22"), [one("1e+22"), one("1e22")], "full")
+# literals that overflow a double are read as infinities; the canonical spelling must read back as the same float
+add("finf", F("inf"), [one("1e999"), one("1e400"), one("2.5E+308")], "full")
+add("fninf", F("-inf"), [one("-1e999"), one("-1e400")], "full")
 add("t", B("true"), [one("true")], "core")
 add("f", B("false"), [one("false")], "full")
 add("null", N, [one("null")], "core")
@@ -174,6 +177,7 @@ add("zempty", Z(3, "", ), [[("first", []), ("rel", ["```"]), ("rel", ["```"])]],
 add("ztab", Z(3, "txt", "{U0009}x", "cafe{U0301}", 'q"\\n'), [[("first", []), ("rel", ["```", "txt"]), ("raw", ["U0009", "x"]), ("raw", ["cafe", "U0301"]), ("raw", ['q"\\n']), ("rel", ["```"])]], "full")
 add("zblank3", Z(3, "", "a  ", "", "", "", "{U00A7}1::X", "{U00A7}2::Y"), [[("first", []), ("rel", ["```"]), ("raw", ["a  "]), ("raw", []), ("raw", []), ("raw", []),
                                                                          ("raw", [SEC, "1::X"]), ("raw", [SEC, "2::Y"]), ("rel", ["```"])]], "full")
+add("linf", L(F("inf"), I("1"), F("-inf")), [one("[", "1e999", ",", "1", ",", "-1e999", "]"), one("[", "1e400", ",", "1", ",", "-1e400", "]")], "full")
 add("l01", L(I("0"), I("1"), B("true"), N), [one("[", "0", ",", "1", ",", "true", ",", "null", "]")], "full")
 add("zblank", Z(3, "", "x", "", "---"), [[("first", []), ("rel", ["```"]), ("raw", ["x"]), ("raw", []), ("raw", ["---"]), ("rel", ["```"])]], "full")
 
